@@ -37,7 +37,7 @@
    atom; `atomic = false` is the code as it is.
 
    GHOST fields (never read by a transition, only recorded): t_script, b_expect,
-   b_got, w_log, w_started, w_finished, w_created, w_deposited, w_dropped, w_errs, w_oos, s_roots.
+   b_got, w_log, w_started, w_finished, w_created, w_deposited, w_dropped, w_stuck, w_errs, w_oos, s_roots.
    Out of scope (C12): _handle_cancel, cancelled-id tests, breadcrumbs.  A CANCEL that
    is emitted or received sets w_oos; the theorems speak about runs with w_oos = false. *)
 From Coq Require Import List Arith Bool PeanoNat.
@@ -216,35 +216,37 @@ Record wstate := mkW {
   w_pc : pc; 
   w_out : list msg; 
   w_rdead : bool; (* receiving thread died on an uncaught exception *)
-  w_log : list (addr * script * option nat * obs); (* GHOST: every value a body received from an await (with the body) *)
+  w_log : list (addr * script * option nat * obs); (* GHOST: every value a body received from an await (with the body and the mailbox) *)
   w_started : list addr; (* GHOST: task.start() calls *)
   w_finished : list (addr * val); (* GHOST: bodies that returned *)
   w_created : list addr; (* GHOST: tasks created by submit/map here *)
   w_deposited : list addr; (* GHOST: return addresses of all results deposited here *)
-  w_dropped : list addr; (* GHOST: results ignored because their mailbox was gone *)
+  w_dropped : list addr; (* GHOST: results not deposited (mailbox gone / wrong worker) *)
+  w_stuck : list addr; (* GHOST: tasks whose completion raised inside _handle_result (worker stops) *)
   w_errs : list err; (* GHOST: runtime-internal exceptions *)
   w_oos : bool (* GHOST: a CANCEL was emitted/received: outside the scope of C07 *)
 }.
 
-Definition w0 (id : nat) : wstate := mkW id [] [] [] [] 0 None PLoop [] false [] [] [] [] [] [] [] false.
+Definition w0 (id : nat) : wstate := mkW id [] [] [] [] 0 None PLoop [] false [] [] [] [] [] [] [] [] false.
 
-Definition set_tasks w x := mkW (w_id w) x (w_delayed w) (w_ready w) (w_boxes w) (w_counter w) (w_recent w) (w_pc w) (w_out w) (w_rdead w) (w_log w) (w_started w) (w_finished w) (w_created w) (w_deposited w) (w_dropped w) (w_errs w) (w_oos w).
-Definition set_delayed w x := mkW (w_id w) (w_tasks w) x (w_ready w) (w_boxes w) (w_counter w) (w_recent w) (w_pc w) (w_out w) (w_rdead w) (w_log w) (w_started w) (w_finished w) (w_created w) (w_deposited w) (w_dropped w) (w_errs w) (w_oos w).
-Definition set_ready w x := mkW (w_id w) (w_tasks w) (w_delayed w) x (w_boxes w) (w_counter w) (w_recent w) (w_pc w) (w_out w) (w_rdead w) (w_log w) (w_started w) (w_finished w) (w_created w) (w_deposited w) (w_dropped w) (w_errs w) (w_oos w).
-Definition set_boxes w x := mkW (w_id w) (w_tasks w) (w_delayed w) (w_ready w) x (w_counter w) (w_recent w) (w_pc w) (w_out w) (w_rdead w) (w_log w) (w_started w) (w_finished w) (w_created w) (w_deposited w) (w_dropped w) (w_errs w) (w_oos w).
-Definition set_counter w x := mkW (w_id w) (w_tasks w) (w_delayed w) (w_ready w) (w_boxes w) x (w_recent w) (w_pc w) (w_out w) (w_rdead w) (w_log w) (w_started w) (w_finished w) (w_created w) (w_deposited w) (w_dropped w) (w_errs w) (w_oos w).
-Definition set_recent w x := mkW (w_id w) (w_tasks w) (w_delayed w) (w_ready w) (w_boxes w) (w_counter w) x (w_pc w) (w_out w) (w_rdead w) (w_log w) (w_started w) (w_finished w) (w_created w) (w_deposited w) (w_dropped w) (w_errs w) (w_oos w).
-Definition set_pc w x := mkW (w_id w) (w_tasks w) (w_delayed w) (w_ready w) (w_boxes w) (w_counter w) (w_recent w) x (w_out w) (w_rdead w) (w_log w) (w_started w) (w_finished w) (w_created w) (w_deposited w) (w_dropped w) (w_errs w) (w_oos w).
-Definition set_out w x := mkW (w_id w) (w_tasks w) (w_delayed w) (w_ready w) (w_boxes w) (w_counter w) (w_recent w) (w_pc w) x (w_rdead w) (w_log w) (w_started w) (w_finished w) (w_created w) (w_deposited w) (w_dropped w) (w_errs w) (w_oos w).
-Definition set_rdead w x := mkW (w_id w) (w_tasks w) (w_delayed w) (w_ready w) (w_boxes w) (w_counter w) (w_recent w) (w_pc w) (w_out w) x (w_log w) (w_started w) (w_finished w) (w_created w) (w_deposited w) (w_dropped w) (w_errs w) (w_oos w).
-Definition set_log w x := mkW (w_id w) (w_tasks w) (w_delayed w) (w_ready w) (w_boxes w) (w_counter w) (w_recent w) (w_pc w) (w_out w) (w_rdead w) x (w_started w) (w_finished w) (w_created w) (w_deposited w) (w_dropped w) (w_errs w) (w_oos w).
-Definition set_started w x := mkW (w_id w) (w_tasks w) (w_delayed w) (w_ready w) (w_boxes w) (w_counter w) (w_recent w) (w_pc w) (w_out w) (w_rdead w) (w_log w) x (w_finished w) (w_created w) (w_deposited w) (w_dropped w) (w_errs w) (w_oos w).
-Definition set_finished w x := mkW (w_id w) (w_tasks w) (w_delayed w) (w_ready w) (w_boxes w) (w_counter w) (w_recent w) (w_pc w) (w_out w) (w_rdead w) (w_log w) (w_started w) x (w_created w) (w_deposited w) (w_dropped w) (w_errs w) (w_oos w).
-Definition set_created w x := mkW (w_id w) (w_tasks w) (w_delayed w) (w_ready w) (w_boxes w) (w_counter w) (w_recent w) (w_pc w) (w_out w) (w_rdead w) (w_log w) (w_started w) (w_finished w) x (w_deposited w) (w_dropped w) (w_errs w) (w_oos w).
-Definition set_deposited w x := mkW (w_id w) (w_tasks w) (w_delayed w) (w_ready w) (w_boxes w) (w_counter w) (w_recent w) (w_pc w) (w_out w) (w_rdead w) (w_log w) (w_started w) (w_finished w) (w_created w) x (w_dropped w) (w_errs w) (w_oos w).
-Definition set_dropped w x := mkW (w_id w) (w_tasks w) (w_delayed w) (w_ready w) (w_boxes w) (w_counter w) (w_recent w) (w_pc w) (w_out w) (w_rdead w) (w_log w) (w_started w) (w_finished w) (w_created w) (w_deposited w) x (w_errs w) (w_oos w).
-Definition set_errs w x := mkW (w_id w) (w_tasks w) (w_delayed w) (w_ready w) (w_boxes w) (w_counter w) (w_recent w) (w_pc w) (w_out w) (w_rdead w) (w_log w) (w_started w) (w_finished w) (w_created w) (w_deposited w) (w_dropped w) x (w_oos w).
-Definition set_oos w x := mkW (w_id w) (w_tasks w) (w_delayed w) (w_ready w) (w_boxes w) (w_counter w) (w_recent w) (w_pc w) (w_out w) (w_rdead w) (w_log w) (w_started w) (w_finished w) (w_created w) (w_deposited w) (w_dropped w) (w_errs w) x.
+Definition set_tasks w x := mkW (w_id w) x (w_delayed w) (w_ready w) (w_boxes w) (w_counter w) (w_recent w) (w_pc w) (w_out w) (w_rdead w) (w_log w) (w_started w) (w_finished w) (w_created w) (w_deposited w) (w_dropped w) (w_stuck w) (w_errs w) (w_oos w).
+Definition set_delayed w x := mkW (w_id w) (w_tasks w) x (w_ready w) (w_boxes w) (w_counter w) (w_recent w) (w_pc w) (w_out w) (w_rdead w) (w_log w) (w_started w) (w_finished w) (w_created w) (w_deposited w) (w_dropped w) (w_stuck w) (w_errs w) (w_oos w).
+Definition set_ready w x := mkW (w_id w) (w_tasks w) (w_delayed w) x (w_boxes w) (w_counter w) (w_recent w) (w_pc w) (w_out w) (w_rdead w) (w_log w) (w_started w) (w_finished w) (w_created w) (w_deposited w) (w_dropped w) (w_stuck w) (w_errs w) (w_oos w).
+Definition set_boxes w x := mkW (w_id w) (w_tasks w) (w_delayed w) (w_ready w) x (w_counter w) (w_recent w) (w_pc w) (w_out w) (w_rdead w) (w_log w) (w_started w) (w_finished w) (w_created w) (w_deposited w) (w_dropped w) (w_stuck w) (w_errs w) (w_oos w).
+Definition set_counter w x := mkW (w_id w) (w_tasks w) (w_delayed w) (w_ready w) (w_boxes w) x (w_recent w) (w_pc w) (w_out w) (w_rdead w) (w_log w) (w_started w) (w_finished w) (w_created w) (w_deposited w) (w_dropped w) (w_stuck w) (w_errs w) (w_oos w).
+Definition set_recent w x := mkW (w_id w) (w_tasks w) (w_delayed w) (w_ready w) (w_boxes w) (w_counter w) x (w_pc w) (w_out w) (w_rdead w) (w_log w) (w_started w) (w_finished w) (w_created w) (w_deposited w) (w_dropped w) (w_stuck w) (w_errs w) (w_oos w).
+Definition set_pc w x := mkW (w_id w) (w_tasks w) (w_delayed w) (w_ready w) (w_boxes w) (w_counter w) (w_recent w) x (w_out w) (w_rdead w) (w_log w) (w_started w) (w_finished w) (w_created w) (w_deposited w) (w_dropped w) (w_stuck w) (w_errs w) (w_oos w).
+Definition set_out w x := mkW (w_id w) (w_tasks w) (w_delayed w) (w_ready w) (w_boxes w) (w_counter w) (w_recent w) (w_pc w) x (w_rdead w) (w_log w) (w_started w) (w_finished w) (w_created w) (w_deposited w) (w_dropped w) (w_stuck w) (w_errs w) (w_oos w).
+Definition set_rdead w x := mkW (w_id w) (w_tasks w) (w_delayed w) (w_ready w) (w_boxes w) (w_counter w) (w_recent w) (w_pc w) (w_out w) x (w_log w) (w_started w) (w_finished w) (w_created w) (w_deposited w) (w_dropped w) (w_stuck w) (w_errs w) (w_oos w).
+Definition set_log w x := mkW (w_id w) (w_tasks w) (w_delayed w) (w_ready w) (w_boxes w) (w_counter w) (w_recent w) (w_pc w) (w_out w) (w_rdead w) x (w_started w) (w_finished w) (w_created w) (w_deposited w) (w_dropped w) (w_stuck w) (w_errs w) (w_oos w).
+Definition set_started w x := mkW (w_id w) (w_tasks w) (w_delayed w) (w_ready w) (w_boxes w) (w_counter w) (w_recent w) (w_pc w) (w_out w) (w_rdead w) (w_log w) x (w_finished w) (w_created w) (w_deposited w) (w_dropped w) (w_stuck w) (w_errs w) (w_oos w).
+Definition set_finished w x := mkW (w_id w) (w_tasks w) (w_delayed w) (w_ready w) (w_boxes w) (w_counter w) (w_recent w) (w_pc w) (w_out w) (w_rdead w) (w_log w) (w_started w) x (w_created w) (w_deposited w) (w_dropped w) (w_stuck w) (w_errs w) (w_oos w).
+Definition set_created w x := mkW (w_id w) (w_tasks w) (w_delayed w) (w_ready w) (w_boxes w) (w_counter w) (w_recent w) (w_pc w) (w_out w) (w_rdead w) (w_log w) (w_started w) (w_finished w) x (w_deposited w) (w_dropped w) (w_stuck w) (w_errs w) (w_oos w).
+Definition set_deposited w x := mkW (w_id w) (w_tasks w) (w_delayed w) (w_ready w) (w_boxes w) (w_counter w) (w_recent w) (w_pc w) (w_out w) (w_rdead w) (w_log w) (w_started w) (w_finished w) (w_created w) x (w_dropped w) (w_stuck w) (w_errs w) (w_oos w).
+Definition set_dropped w x := mkW (w_id w) (w_tasks w) (w_delayed w) (w_ready w) (w_boxes w) (w_counter w) (w_recent w) (w_pc w) (w_out w) (w_rdead w) (w_log w) (w_started w) (w_finished w) (w_created w) (w_deposited w) x (w_stuck w) (w_errs w) (w_oos w).
+Definition set_stuck w x := mkW (w_id w) (w_tasks w) (w_delayed w) (w_ready w) (w_boxes w) (w_counter w) (w_recent w) (w_pc w) (w_out w) (w_rdead w) (w_log w) (w_started w) (w_finished w) (w_created w) (w_deposited w) (w_dropped w) x (w_errs w) (w_oos w).
+Definition set_errs w x := mkW (w_id w) (w_tasks w) (w_delayed w) (w_ready w) (w_boxes w) (w_counter w) (w_recent w) (w_pc w) (w_out w) (w_rdead w) (w_log w) (w_started w) (w_finished w) (w_created w) (w_deposited w) (w_dropped w) (w_stuck w) x (w_oos w).
+Definition set_oos w x := mkW (w_id w) (w_tasks w) (w_delayed w) (w_ready w) (w_boxes w) (w_counter w) (w_recent w) (w_pc w) (w_out w) (w_rdead w) (w_log w) (w_started w) (w_finished w) (w_created w) (w_deposited w) (w_dropped w) (w_stuck w) (w_errs w) x.
 
 Definition send (w : wstate) (m : msg) : wstate := set_out w (w_out w ++ [m]).
 Definition put (w : wstate) (a : addr) : wstate := set_ready w (w_ready w ++ [a]).
@@ -259,7 +261,7 @@ Definition add_task (w : wstate) (t : task) : wstate :=
 (* _handle_result.  Some w' = returned normally; None' = raised (state after the partial
    effects is the first component). *)
 Definition handle_result (w : wstate) (a : addr) (v : val) : wstate * bool :=
-  if negb (dest_eqb (a_w a) (me w)) then (log_err w EAssertWid, false)
+  if negb (dest_eqb (a_w a) (me w)) then (set_dropped (log_err w EAssertWid) (w_dropped w ++ [a]), false)
   else match box_get (a_box a) (w_boxes w) with
   | None => (set_dropped w (w_dropped w ++ [a]), true)  (* mailbox dropped: ignore *)
   | Some b =>
@@ -464,7 +466,7 @@ Definition complete (w : wstate) (t : task) (v : val) : wstate * bool :=
   let a := t_addr t in
   let (w1, ok) :=
     if dest_eqb (a_w a) (me w) then
-      let (w', ok) := handle_result w a v in (if ok then send w' MUpdate else w', ok)
+      let (w', ok) := handle_result w a v in (if ok then send w' MUpdate else set_stuck w' (w_stuck w' ++ [a]), ok)
     else (send w (MResult a v (w_id w)), true) in
   if negb ok then (w1, false) else
   let w2 := set_finished (set_tasks w1 (task_del a (w_tasks w1))) (w_finished w1 ++ [(a, v)]) in
